@@ -29,7 +29,7 @@ OUTSIDE = "modules outside corpus K20; attribute completion soundness; identifie
 BOUNDS = {"quick": {"corpus": "K20"}, "thorough": {"corpus": "K20"}}
 
 K20 = [
-    Skeleton("a01_scopes", {"main.py": "{0} = 1\ndef fun({1}):\n    {2} = {1} + {0}\n    return {2}\nclass kls:\n    {3} = 2\n    def meth(self, {4}):\n        return {4} + {0}\nprint(fun({0}))\n"}, lens={0: 2, 2: 2}),
+    Skeleton("a01_scopes", {"main.py": "{0} = 1\ndef fun({1}):\n    {2} = {1} + {0}\n    return {2}\nclass kls:\n    {3} = 2\n    {5} = {3} + {0}\n    def meth(self, {4}):\n        return {4} + {0}\nprint(fun({0}))\n"}, lens={2: 2, 3: 2}),
     Skeleton("a02_imports_nested", {"main.py": "import os as {0}\nfrom os import sep as {1}\ndef outer({2}):\n    def inner({3}):\n        return {2} + {3}\n    return inner(1) + len({1})\nprint(outer(1), {0}.sep)\n"}, lens={1: 2, 2: 2}),
     Skeleton("a03_attrs_and_partial", {"main.py": "class kls:\n    def __init__(self):\n        self.{0} = 1\n    def get(self):\n        return self.{0}\n{1} = kls()\nprint({1}.get(), {1}.{0})\n"}, lens={0: 2}),
 ]
@@ -38,9 +38,26 @@ K20 = [
 def instances(tier):
     out = []
     for k, sk in enumerate(K20):
-        dummy = re.sub(r"\{(\d)\}", lambda mm: "z" * sk.lens.get(int(mm.group(1)), 1), sk.files["main.py"])
-        step = 1 if tier == "thorough" else 3
-        for off in range(0, len(dummy) + 1, step):
+        T = sk.files["main.py"]
+        dummy = re.sub(r"\{(\d)\}", lambda mm: "z" * sk.lens.get(int(mm.group(1)), 1), T)
+        if tier == "thorough":
+            offs = range(0, len(dummy) + 1)
+        else:
+            # quick: the positions where something is being typed: inside and at the end of every
+            # identifier slot occurrence, and the end of every line
+            offs = set()
+            pos = 0
+            shift = 0
+            for mm in re.finditer(r"\{(\d)\}", T):
+                L = sk.lens.get(int(mm.group(1)), 1)
+                start = mm.start() + shift
+                offs.update(range(start + 1, start + L + 1))
+                shift += L - len(mm.group(0))
+            for i, ch in enumerate(dummy):
+                if ch == "\n" and i % 2 == 0:
+                    offs.add(i)
+            offs = sorted(offs)
+        for off in offs:
             out.append(("assist.%s.o%03d" % (sk.name, off), dict(k=k, off=off)))
     return out
 
